@@ -214,31 +214,58 @@ SORT_FIELDS = ['time', 'time', 'time', 'num_restarts', 'process', 'type', 'iter'
 
 
 def run_helpers(stats_helper, d, kw, recomputed, sortby):
-    """Run the real helpers; returns dict(filter=items|None(raised), sorted=list|None, types=list, err=...)."""
-    out = {'err': None}
-    try:
-        kws = dict(kw)
-        if recomputed is not None:
-            kws['recomputed'] = recomputed
-        r = stats_helper.filter_stats(d, **kws)
-        out['filter'] = list(r.items())
-    except TypeError as e:
+    """Run the real helpers on d; returns dict(filter=items|None(raised), sorted=list|None, types=list, err=...,
+    raised=[(call, 'Class: msg')] for exceptions other than the TypeErrors Python semantics prescribe,
+    mutated=[call, ...] for helper calls that changed (or handed out) the caller's dictionary).
+    d is restored to its original content before returning."""
+    out = {'err': None, 'raised': [], 'mutated': []}
+    pristine = list(d.items())
+
+    def guard(call, fn, *a, **k):
+        """call a helper; returns (result, exception-or-None); checks that d is untouched and not aliased"""
+        res, exc = None, None
+        try:
+            res = fn(*a, **k)
+        except Exception as e:
+            exc = e
+            if not isinstance(e, TypeError):
+                out['raised'].append((call, '%s: %s' % (type(e).__name__, e)))
+        if res is d:
+            out['mutated'].append(call + ' returns the caller\'s dictionary itself')
+        if list(d.items()) != pristine:
+            out['mutated'].append(call + ' changed the caller\'s dictionary (%d -> %d entries)' % (len(pristine), len(d)))
+            d.clear()
+            d.update(pristine)
+        return res, exc
+
+    kws = dict(kw)
+    if recomputed is not None:
+        kws['recomputed'] = recomputed
+    r, exc = guard('filter_stats(stats, **%r)' % (kws,), stats_helper.filter_stats, d, **kws)
+    if exc is not None:
         out['filter'] = None
-        out['err'] = 'filter: TypeError'
+        out['err'] = 'filter: ' + type(exc).__name__
         r = None
+    else:
+        out['filter'] = list(r.items())
+        r = dict(out['filter'])      # a private copy for the sort calls
     out['sorted'] = None
     if r is not None:
-        try:
-            s = stats_helper.sort_stats(r, sortby=sortby)
+        s, exc = guard('sort_stats(filtered, sortby=%r)' % sortby, stats_helper.sort_stats, r, sortby=sortby)
+        if exc is not None:
+            out['err'] = 'sort: ' + type(exc).__name__
+        else:
             out['sorted'] = [(a.item() if hasattr(a, 'item') else a, b) for a, b in s]
             # get_sorted must be the composition
-            kws2 = dict(kws)
-            g = stats_helper.get_sorted(d, sortby=sortby, **kws2)
-            out['get_sorted_same'] = (list(g) == list(s))
-        except TypeError:
-            out['sorted'] = None
-            out['err'] = 'sort: TypeError'
-    out['types'] = stats_helper.get_list_of_types(d)
+            g, exc = guard('get_sorted(stats, sortby=%r, **%r)' % (sortby, kws), stats_helper.get_sorted, d, sortby=sortby, **kws)
+            out['get_sorted_same'] = exc is None and (list(g) == list(s))
+    t, exc = guard('get_list_of_types(stats)', stats_helper.get_list_of_types, d)
+    out['types'] = t if exc is None else None
+    # key-less calls (no oracle on the value here: that is what the drawn case does when its kwargs are empty)
+    guard('filter_stats(stats)', stats_helper.filter_stats, d)
+    guard('filter_stats(stats, recomputed=False)', stats_helper.filter_stats, d, recomputed=False)
+    guard('filter_stats(stats, recomputed=True)', stats_helper.filter_stats, d, recomputed=True)
+    guard('get_sorted(stats, recomputed=False, sortby=%r)' % sortby, stats_helper.get_sorted, d, recomputed=False, sortby=sortby)
     return out
 
 
@@ -248,7 +275,7 @@ def case_coq(idx, d_items, kw, recomputed, sortby, res):
     L.append('Definition d%d : dict Z := %s.' % (idx, dict_lit(d_items)))
     exp_f = 'N' if res['filter'] is None else '(Some %s)' % dict_lit(res['filter'])
     exp_s = 'N' if res['sorted'] is None else '(Some %s)' % coq_list(['(%s, %s)' % (item_lit(a), zlit(int(b))) for a, b in res['sorted']])
-    exp_t = coq_list([str_lit(t) for t in res['types']])
+    exp_t = coq_list([str_lit(t) for t in (res['types'] or [])])
     L.append('Definition c%d : bool * bool * bool :=' % idx)
     L.append('  let f := filter_stats ztruthy d%d %s %s in' % (idx, kwargs_lit(kw), recomputed_lit(recomputed)))
     L.append('  (match f, %s with Some a, Some b => dict_eqb a b | None, None => true | _, _ => false end,' % exp_f)
@@ -279,7 +306,7 @@ def make_run_tools():
             Recorder.events.append(dict(
                 cb=name, slot=step.status.slot, level=level_number, level_index=L.level_index, time=L.time, dt=L.dt,
                 iter=step.status.iter, sweep=L.status.sweep, restart=bool(step.status.get('restart')),
-                nr=step.status.get('restarts_in_a_row'), rank=L.sweep.rank,
+                nr=step.status.get('restarts_in_a_row'), rank=L.sweep.rank, est=bool(L.status.get('error_embedded_estimate')),
                 calls=dict(getattr(P, 'c14_calls', {})), nlev=len(step.levels)))
 
         def pre_step(self, step, level_number):
@@ -382,15 +409,36 @@ def run_config(cfg):
     if cfg.get('script'):
         cc[ScriptedRestarts] = {'script': [tuple(x) for x in cfg['script']]}
     desc['convergence_controllers'] = cc
-    hooks = [Recorder, LogWork, LogSolution, LogRestarts, LogStepSize, LogSDCIterations, LogGlobalErrorPostStep]
+    hooks = [Recorder, LogWork, LogSolution, LogSDCIterations, LogGlobalErrorPostStep]
+    if not cfg.get('lean_hooks'):
+        hooks += [LogRestarts, LogStepSize]          # otherwise left to the convergence controllers that add them
     if cfg['problem'] == 'test':
         hooks.append(LogLocalErrorPostStep)
-    if cfg.get('e_tol') is not None:
+    if cfg.get('e_tol') is not None and not cfg.get('lean_hooks'):
         hooks.append(LogEmbeddedErrorEstimate)
+    if cfg.get('post_iter_hook'):
+        # a shipped subclass of a hook that the error estimator adds itself (writes a different record type)
+        from pySDC.implementations.hooks.log_embedded_error_estimate import LogEmbeddedErrorEstimatePostIter
+        hooks.insert(1, LogEmbeddedErrorEstimatePostIter)
     cp = {'logger_level': 40, 'hook_class': hooks, 'mssdc_jac': bool(cfg.get('jac', False))}
     out = {'error': None, 't0': 0.0, 'Tend': cfg['Tend']}
+    # independent record of which hook classes are asked for (user list and convergence controllers alike)
+    from pySDC.core.controller import Controller
+    requested = []
+    orig_add_hook = Controller.add_hook
+
+    def spy(self, hook):
+        requested.append(hook)
+        return orig_add_hook(self, hook)
     try:
-        c = controller_nonMPI(num_procs=cfg['procs'], controller_params=cp, description=desc)
+        Controller.add_hook = spy
+        try:
+            c = controller_nonMPI(num_procs=cfg['procs'], controller_params=cp, description=desc)
+        finally:
+            Controller.add_hook = orig_add_hook
+        out['requested_hooks'] = [h.__name__ for h in requested]
+        out['registered_hooks'] = [type(h).__name__ for h in c.hooks]
+        out['registered_exact'] = [sum(1 for h in c.hooks if type(h) is r) for r in requested]
         P = c.MS[0].levels[0].prob
         u0 = P.u_exact(0.0)
         uend, stats = c.run(u0, 0.0, cfg['Tend'])
@@ -423,6 +471,13 @@ HOOK_OF = {'niter': 'DefaultHooks', 'residual_post_step': 'DefaultHooks', 'u': '
            'work_jacobian_solves': 'LogWork', 'timing_step': 'CPUTimings'}
 
 
+# record types a hook promises for every step (inverse of HOOK_OF); error_embedded_estimate only when an estimate exists
+PROMISES = {}
+for _ty, _h in HOOK_OF.items():
+    if _ty not in ('work_newton', 'work_jacobian_solves'):
+        PROMISES.setdefault(_h, []).append(_ty)
+
+
 def attempts_of(events):
     """Group the recorder's events into step attempts (one per post_step on level 0), in callback order.
     Each attempt: dict(slot, time, dt, tend, iter, sweep, restart, nr, rank, n_pre_it, n_post_it, calls (delta), block)."""
@@ -444,7 +499,7 @@ def attempts_of(events):
                 block += 1
             last_slot = s
             a = dict(slot=s, time=ev['time'], dt=ev['dt'], tend=ev['time'] + ev['dt'], iter=ev['iter'], sweep=ev['sweep'],
-                     restart=ev['restart'], nr=ev['nr'], rank=ev['rank'], block=block, level_index=ev['level_index'],
+                     restart=ev['restart'], nr=ev['nr'], rank=ev['rank'], block=block, level_index=ev['level_index'], est=ev.get('est', False),
                      n_pre_it=None if o is None else o['n_pre_it'], n_post_it=None if o is None else o['n_post_it'],
                      calls=None if o is None else {k: ev['calls'].get(k, 0) - o['pre']['calls'].get(k, 0) for k in ev['calls']})
             atts.append(a)
@@ -521,8 +576,49 @@ def check_run(run, stats_helper, Entry):
         if acc and t < run['Tend'] - 1e-9:
             add('accepted_steps_do_not_tile', 'accepted steps end at %r < Tend %r' % (t, run['Tend']))
 
+    # every helper call below goes through a proxy that checks that the run's statistics are left alone
+    pristine = [(k, id(v)) for k, v in stats.items()]
+    real_helpers = stats_helper
+
+    class _Guarded(object):
+        def __getattr__(self, name):
+            fn = getattr(real_helpers, name)
+
+            def wrapped(d, *a, **k):
+                call = '%s(stats%s)' % (name, ''.join(', %s=%r' % kv for kv in k.items()))
+                res = None
+                try:
+                    res = fn(d, *a, **k)
+                finally:
+                    if d is stats:
+                        if res is stats:
+                            add('helper_mutates_stats', "%s returns the caller's dictionary itself" % call, helper=name, call=call)
+                        if [(k_, id(v_)) for k_, v_ in stats.items()] != pristine:
+                            add('helper_mutates_stats', "%s changed the statistics of the run (%d -> %d entries)" % (call, len(pristine), len(stats)),
+                                helper=name, call=call)
+                            stats.clear()
+                            stats.update(orig_items)
+                return res
+            return wrapped
+    orig_items = list(stats.items())
+    stats_helper = _Guarded()
+
     types_present = stats_helper.get_list_of_types(stats)
     info['types'] = sorted(x for x in types_present)
+    # key-less calls: plain copy; with `recomputed` the records that are neither outnumbered nor at a marked time
+    try:
+        allrec = stats_helper.filter_stats(stats)
+        if list(allrec.keys()) != [k for k, _ in orig_items]:
+            add('filter_keyless', 'filter_stats(stats) is not a copy of the statistics')
+        for flag in (False, True):
+            got = stats_helper.filter_stats(stats, recomputed=flag)
+            if is_regular(orig_items):
+                want = [k for k, _ in spec_filter_regular(orig_items, {}, flag)]
+                if list(got.keys()) != want:
+                    add('filter_keyless', 'filter_stats(stats, recomputed=%r) returns %d records, specification %d' % (flag, len(got), len(want)))
+        stats_helper.get_sorted(stats, recomputed=False, sortby='num_restarts')   # (times may be None: timing_run of idle steps)
+    except Exception as e:
+        add('helper_raises', 'key-less helper call raised %s: %s' % (type(e).__name__, e), helper='filter_stats')
     raw_by_type = {}
     for k, v in stats.items():
         raw_by_type.setdefault(k.type, []).append((k, v))
@@ -535,10 +631,19 @@ def check_run(run, stats_helper, Entry):
             add('niter_callbacks', 'step at t=%r: status.iter=%d but %d pre_iteration / %d post_iteration callbacks'
                 % (a['time'], a['iter'], a['n_pre_it'], a['n_post_it']), slot=a['slot'])
 
+    # hooks asked for must be registered (exact class), once
+    req = run.get('requested_hooks') or []
+    for name, n in zip(req, run.get('registered_exact') or []):
+        if n != 1 and name not in [r for r in req[:req.index(name)]]:
+            add('hook_not_registered' if n == 0 else 'hook_registered_twice',
+                'hook class %s was passed to Controller.add_hook but the controller holds %d instance(s) of exactly that class (hooks: %s)'
+                % (name, n, run.get('registered_hooks')), hook=name)
+    promised = {ty for h in req for ty in PROMISES.get(h, [])}
+    info['promised_types'] = sorted(promised)
     for ty in STEP_TYPES:
-        if ty not in raw_by_type:
+        if ty not in raw_by_type and ty not in promised:
             continue
-        raw = dict(raw_by_type[ty])
+        raw = dict(raw_by_type.get(ty, []))
         # times at which a record of this type is keyed with a restart count other than its step's (stale hook counter)
         stale_times = set()
         for a in atts:
@@ -554,7 +659,7 @@ def check_run(run, stats_helper, Entry):
                 add('accepted_keys_collide', 'two accepted steps share the %s key %s' % (ty, key), type=ty)
             want[key] = a
             if key not in raw:
-                if ty == 'error_embedded_estimate':
+                if ty == 'error_embedded_estimate' and not a['est']:
                     continue   # only recorded when an estimate exists (truthy)
                 near = [k for k in raw if all(getattr(k, f) == kf[f] for f in FIELDS if f != 'num_restarts')]
                 if near:
@@ -564,6 +669,8 @@ def check_run(run, stats_helper, Entry):
                 else:
                     add('record_missing', 'no %s record for the accepted step at t=%r (slot %d); expected key %s' % (ty, a['time'], a['slot'], key),
                         hook=HOOK_OF.get(ty), type=ty, step_time=a['time'], slot=a['slot'])
+        if not raw:
+            continue          # nothing of this type at all: reported above, once per accepted step
         # values
         for key, a in want.items():
             if key not in raw:
@@ -615,7 +722,7 @@ def check_run(run, stats_helper, Entry):
                 add('recomputed_filter_keeps_superseded', 'filter_stats(type=%r, recomputed=False) returns a record of a superseded step: %s' % (ty, k),
                     cause=cause, type=ty, hook=HOOK_OF.get(ty), key=str(k))
         for idn, a in acc_ids.items():
-            if ty == 'error_embedded_estimate' and not any(ident(k) == idn for k in raw):
+            if ty == 'error_embedded_estimate' and not a['est']:
                 continue
             n = len(got_acc.get(idn, []))
             if n == 0:
